@@ -252,7 +252,8 @@ def _cst_dp_serial(network):
 				# (could be negative if S > T, in which case just treat NLT as 0).
 				theta[k_index][SI] = k.local_holding_cost * k.demand_bound_constant \
 					* sigma * math.sqrt(max(0, SI + k.processing_time - k.external_outbound_cst))
-				best_S[k_index][SI] = k.external_outbound_cst
+				# (Quote at most SI + T, so that the net lead time is non-negative.)
+				best_S[k_index][SI] = min(k.external_outbound_cst, SI + k.processing_time)
 
 			else:
 
